@@ -153,6 +153,18 @@ def run(tier, seed):
                 else:
                     srv["challenge_faults"] = f
                 cplans.append({"id": "len-%s-%d" % (target[:5], j), "cfg": base_cfg, "srv": srv})
+        # a reply announcing more than it delivers (or cut short), and the server hanging up right behind it
+        for target in ("challenge", "final"):
+            for mode in ("notify", "abrupt"):
+                for j, f in enumerate(([{"op": "splice", "at": 1, "del": 3, "bytes": [0x82, 0xff, 0xff]}], [{"op": "splice", "at": 1, "del": 3, "bytes": [0x84, 0, 1, 0, 0]}],
+                                       [{"op": "trunc", "at": 2}], [{"op": "trunc", "at": 4}], [{"op": "trunc", "at": 40}], [{"op": "trunc", "at": 1}], [])):
+                    srv = dict(base_srv)
+                    srv["close_after"] = target; srv["close_mode"] = mode
+                    if target == "final":
+                        srv["final"] = {"kind": "faulted", "faults": f}
+                    else:
+                        srv["challenge_faults"] = f
+                    cplans.append({"id": "hup-%s-%s-%d" % (target[:5], mode, j), "cfg": base_cfg, "srv": srv})
         ctrace, cblobs, cdecoded, cdec = conn.run_plans(wd, cplans, "c07tls", v=v, key="nla:cssp_connect:abort")
         tls_out = {}
         for l in open(ctrace):
